@@ -228,3 +228,48 @@ def breakpoints(exits_or_terms, lo, hi, extra=()):
             if lo <= c + d <= hi:
                 pts.add(c + d)
     return sorted(pts)
+
+
+def _atoms(t, out):
+    if isinstance(t, tuple) and t and t[0] == 'not':
+        _atoms(t[1], out)
+    elif isinstance(t, tuple) and t and t[0] == 'bool':
+        for x in t[2]:
+            _atoms(x, out)
+    elif isinstance(t, tuple) and t and t[0] == 'cond':
+        _atoms(t[1], out); _atoms(t[2], out); _atoms(t[3], out)
+    elif t is True or t is False or t is None:
+        pass
+    else:
+        if t not in out:
+            out.append(t)
+
+
+def _peval(t, asg):
+    if isinstance(t, tuple) and t and t[0] == 'not':
+        return not _peval(t[1], asg)
+    if isinstance(t, tuple) and t and t[0] == 'bool':
+        vals = [_peval(x, asg) for x in t[2]]
+        return all(vals) if t[1] == 'and' else any(vals)
+    if isinstance(t, tuple) and t and t[0] == 'cond':
+        return _peval(t[2], asg) if _peval(t[1], asg) else _peval(t[3], asg)
+    if t is True or t is False or t is None:
+        return bool(t)
+    return asg[t]
+
+
+def satisfiable(pc, extra=()):
+    """Propositional satisfiability of a path condition [(term, polarity)] plus extra [(term, polarity)], treating every
+    non-boolean-connective subterm as an independent atom (sound for 'is this combination possible' only in the
+    direction UNSAT => impossible)."""
+    atoms = []
+    for t, pol in list(pc) + list(extra):
+        _atoms(t, atoms)
+    if len(atoms) > 16:
+        return True
+    import itertools
+    for vals in itertools.product((False, True), repeat=len(atoms)):
+        asg = dict(zip(atoms, vals))
+        if all(_peval(t, asg) == pol for t, pol in list(pc) + list(extra)):
+            return True
+    return False
